@@ -1018,14 +1018,33 @@ Proof.
   rewrite N.eqb_refl in Hm. rewrite orb_true_r in Hm. discriminate.
 Qed.
 
-(* `-L n`: from n to the end of the file, as git reads it *)
-Theorem single_number_range n total :
-  1 <= n -> n <= total -> total < u32_max ->
-  exists r, parse_line_range (print_N n) = Some r /\ prepare_ranges total [r] = Ok [(n, total)].
+(* the ranges handed to git lie inside the content of the revision git blames *)
+Theorem request_sized_by_blamed_revision count json newest requested rs :
+  prepare_request count json newest requested = Ok rs ->
+  forall r, In r rs -> 1 <= fst r /\ fst r <= snd r /\ snd r <= count (effective_revision json newest).
+Proof. unfold prepare_request, sizing_revision. cbn [content_read_after_effective_options]. apply ranges_validated. Qed.
+
+(* no -L: the whole file as it is in the blamed revision (an empty file is still rejected: known finding K2) *)
+Theorem default_range_whole_revision count json newest :
+  1 <= count (effective_revision json newest) ->
+  prepare_request count json newest [] = Ok [(1, count (effective_revision json newest))].
 Proof.
-  intros H1 H2 H3. exists (n, line_range_eof). split.
+  intro H. unfold prepare_request, sizing_revision. cbn [content_read_after_effective_options].
+  unfold prepare_ranges. cbn [forallb]. unfold range_valid. cbn [fst snd].
+  set (t := count (effective_revision json newest)) in *.
+  assert (((1 =? 0) || (t =? 0) || (t <? 1) || (t <? t)) = false) as -> by lia. reflexivity.
+Qed.
+
+(* `-L n`: from n to the end of the file in the blamed revision, as git reads it *)
+Theorem single_number_range count json newest n :
+  let total := count (effective_revision json newest) in
+  1 <= n -> n <= total -> total < u32_max ->
+  exists r, parse_line_range (print_N n) = Some r /\ prepare_request count json newest [r] = Ok [(n, total)].
+Proof.
+  intros total H1 H2 H3. exists (n, line_range_eof). split.
   - unfold parse_line_range. rewrite no_comma_digits. rewrite parse_u32_print by lia. reflexivity.
-  - unfold prepare_ranges. cbn [map fst snd]. rewrite N.eqb_refl. cbn [forallb fst snd].
+  - unfold prepare_request, sizing_revision. cbn [content_read_after_effective_options]. fold total.
+    unfold prepare_ranges. cbn [map fst snd]. rewrite N.eqb_refl. cbn [forallb fst snd].
     unfold range_valid. cbn [fst snd].
     assert (((n =? 0) || (total =? 0) || (total <? n) || (total <? total)) = false) as -> by lia.
     reflexivity.
